@@ -294,7 +294,15 @@ pub fn run_workload(sub: u64, acc: &mut Acc, ctx: &Ctx, _thorough: bool) {
     let harmless = gen_harmless_flags(&mut Rng::new(sub ^ 0xF1A6), &["-i", "-S"]);
     args.extend(harmless.iter().cloned());
     args.extend(["foo".into(), "w".into()]);
-    let spec = RunSpec { args, env, path_prefix, ..RunSpec::default() };
+    // reads on the child's pipes (stdout by rg's main thread, stderr by its drain thread) are
+    // sometimes answered EINTR at a seeded index and cut into small pieces: both only ask for a retry
+    let mut prng = Rng::new(sub ^ 0x919E);
+    let plan: Vec<String> = match prng.below(4) {
+        0 => vec![format!("pipe_eintr={}", prng.below(6))],
+        1 => vec![format!("pipe_eintr={}", prng.below(4)), format!("pipe_eintr={}", 4 + prng.below(40)), format!("pipe_frag={}", 1 + prng.below(1000))],
+        _ => vec![],
+    };
+    let spec = RunSpec { args, env, path_prefix, plan, ..RunSpec::default() };
     // shadow run: plain rg over exactly the scripted bytes
     let mut sargs = base.clone();
     sargs.extend(gen_harmless_flags(&mut Rng::new(sub ^ 0xF1A6), &["-i", "-S"]));
@@ -310,7 +318,18 @@ pub fn run_workload(sub: u64, acc: &mut Acc, ctx: &Ctx, _thorough: bool) {
     let got = ctx.run(&scratch, &spec, 90);
     let again = ctx.run(&scratch, &spec, 90);
     acc.evals += 3;
-    if again.stdout != got.stdout || again.code != got.code || sorted(&again.stderr) != sorted(&got.stderr) {
+    let differ = again.stdout != got.stdout || again.code != got.code || sorted(&again.stderr) != sorted(&got.stderr);
+    // Under pipe faults the read that is answered EINTR is not the same in both executions
+    // (how much a pipe read returns depends on the child's progress), but nothing observable
+    // may depend on it: if the two outcomes differ, the one that departs from the reference
+    // is judged below.
+    let got = if differ && !spec.plan.is_empty() {
+        let off = |o: &RunOut| (o.stdout != shadow_out.stdout) as u32 * 4 + (o.code != shadow_out.code) as u32 * 2 + (o.stderr.len() > 0) as u32;
+        if off(&again) > off(&got) { again.clone() } else { got }
+    } else {
+        got
+    };
+    if differ && spec.plan.is_empty() {
         harness_error(&format!("C18: the same scripted run gave two different outcomes (workload sub-seed {sub}): exit {} vs {}", got.code, again.code));
     }
     acc.digests.push((sub, digest_out(digest_out(sub, &shadow_out), &got)));
@@ -328,6 +347,8 @@ pub fn run_workload(sub: u64, acc: &mut Acc, ctx: &Ctx, _thorough: bool) {
             Fate::Abandoned { noisy, ignore_sigpipe } => format!("abandoned-by-early-stop{}{}", if *noisy { "+stderr-noise" } else { "" }, if *ignore_sigpipe { "+ignores-SIGPIPE" } else { "" }),
         }));
     }
+    acc.faults.add("pipe-read-EINTR", got.fired("pipe_eintr"));
+    acc.faults.add("pipe-read-fragmentation", got.fired("pipe_frag"));
     if spawn_fails {
         acc.faults.inc(if w.kind == "pre-missing" { "spawn-failure:command-missing" } else { "spawn-failure:not-executable" });
     }
